@@ -349,6 +349,40 @@ def process(ck, case):
             if ties:
                 sigd["input_class"] = "PointsPerIntervalSlicer with equal conditioning values across a chunk boundary"
             ck.fail(sigd, case, differs)
+    # history: re-fitting the SAME model object with a different data matrix must give what a fresh model gives
+    if err is None and not bad and div is None:
+        rng2 = np.random.default_rng(case["perm_seed"] + 1)
+        data_b = data[rng2.permutation(len(data))[: max(len(data) * 2 // 3, 10)]] * float(rng2.uniform(1.2, 1.9)) + 0.05
+        LOG.clear()
+        with warnings.catch_warnings():
+            warnings.simplefilter("ignore")
+            try:
+                model.fit(data_b, fit_descriptions=copy.deepcopy(case["fit_desc"]))
+                err_re = None
+            except Exception as e:  # noqa: BLE001
+                err_re = type(e).__name__ + ":" + str(e)[:40]
+        try:
+            fresh, _, err_f, _ = fit_model(case, data_b)
+        except Exception as e:  # noqa: BLE001
+            fresh, err_f = None, type(e).__name__ + ":" + str(e)[:40]
+        err_f = None if err_f is None else err_f
+        ck.count("A_refit_history")
+        if (err_re is None) != (err_f is None):
+            bad.append(("refit_equals_fresh_fit", f"re-fit of a fitted model raised {err_re}, a fresh model {err_f}"))
+        elif err_re is None:
+            for i in idx:
+                a, b = model.distributions[i], fresh.distributions[i]
+                same = (len(a.data_intervals) == len(b.data_intervals)
+                        and all(np.array_equal(u, v) for u, v in zip(a.data_intervals, b.data_intervals))
+                        and np.array_equal(np.asarray(a.conditioning_values), np.asarray(b.conditioning_values))
+                        and list(map(tuple, a.conditioning_interval_boundaries)) == list(map(tuple, b.conditioning_interval_boundaries))
+                        and a.parameters_per_interval == b.parameters_per_interval)
+                if not same:
+                    bad.append(("refit_equals_fresh_fit",
+                                f"dimension {i}: model fitted to A and re-fitted to B has {len(a.data_intervals)} intervals "
+                                f"(references {np.asarray(a.conditioning_values)[:4].tolist()}...), a fresh model fitted to B has "
+                                f"{len(b.data_intervals)} (references {np.asarray(b.conditioning_values)[:4].tolist()}...)"))
+                    break
     for pred, detail in bad:
         ck.fail({"entry": "GlobalHierarchicalModel.fit", "predicate": pred}, case, detail)
     if div and not bad:
